@@ -217,56 +217,89 @@ def check(ctx):
 
     # ------------------------------------------------------------------ R4 emission mapping
     r4 = ctx.rule('R4', 'stored attributes are emitted under the documented XML keys; indices through checked lookups of the same parent', floor=14)
-    w = wattr.WriterModel(py)
-    pe = [e for e in w.by_tag()['parameter'] if e.method == '_write_parameter'][0]
-    rows = dict()
-    for r_ in pe.rows:
-        rows.setdefault(r_.key, []).append(r_)
-    base = 'parameter'
-    expect = {'transfer-ownership': '%s.transfer' % base, 'direction': '%s.direction' % base, 'scope': '%s.scope' % base, 'name': '%s.argname' % base}
+    WOPQ = ('write_tag', 'tagcontext', '_write_generic', '_write_type', '_write_type_ref', '_write_return_type', '_write_parameters')
+    wrel = py.mod('girwriter').rel
+    WP = gsa.summarise(ctx, 'girwriter', 'GIRWriter._write_parameter', opaque=WOPQ)
+    if len(WP.params) < 3:
+        raise AnalysisError('_write_parameter(self, parent, parameter, ...) signature changed')
+    par, pm = WP.P(1), WP.P(2)
+    rows = {}
+    for cond, key, val, n in gsa.list_items(WP):
+        rows.setdefault(key, []).append((cond, gsa._unparse(val), val))
+    A_ = gsa.atom
+    expect = {'transfer-ownership': '%s.transfer' % pm, 'direction': '%s.direction' % pm, 'scope': '%s.scope' % pm, 'name': '%s.argname' % pm}
     for k, v in sorted(expect.items()):
-        r4.check(any(x.value == v for x in rows.get(k, [])), 'parameter/@%s <- %s' % (k, v), w.mod.rel, rows[k][0].line if k in rows else 1,
-                 'parameter/@%s is written from %s' % (k, [x.value for x in rows.get(k, [])]), detail=[str(x) for x in rows.get(k, [])])
-    flag = {'nullable': ('parameter.nullable', 'parameter.not_nullable'), 'optional': ('parameter.optional',), 'skip': ('parameter.skip',)}
-    for k, atoms in sorted(flag.items()):
-        gt = [x.guard_text() for x in rows.get(k, [])]
-        r4.check(len(gt) == 1 and all(a in gt[0] for a in atoms) and rows[k][0].value == "'1'", 'parameter/@%s="1" iff %s' % (k, ' and not '.join(atoms)), w.mod.rel,
-                 rows[k][0].line if k in rows else 1, 'parameter/@%s is written when %s' % (k, gt), detail=gt)
+        r4.check(any(t == v for c, t, n in rows.get(k, [])), 'parameter/@%s <- %s' % (k, v), wrel, WP.func.lineno,
+                 'parameter/@%s is written from %s' % (k, [t for c, t, n in rows.get(k, [])]), detail=[t for c, t, n in rows.get(k, [])])
+    flag = {'nullable': gsa.conj(A_('%s.nullable' % pm), gsa.neg(A_('%s.not_nullable' % pm))), 'optional': A_('%s.optional' % pm), 'skip': A_('%s.skip' % pm)}
+    for k, want in sorted(flag.items()):
+        got = rows.get(k, [])
+        r4.check(len(got) >= 1 and all(t == "'1'" for c, t, n in got) and gsa.equiv(gsa.disj(*[c for c, t, n in got]), want), 'parameter/@%s="1" iff %s' % (k, gsa.show(want)), wrel,
+                 WP.func.lineno, 'parameter/@%s is written when %s' % (k, [gsa.show(c) for c, t, n in got]), detail=[gsa.show(c) for c, t, n in got])
     ca_ = rows.get('caller-allocates', [])
-    r4.check(len(ca_) == 1 and ca_[0].value == "'1' if parameter.caller_allocates else '0'", 'caller-allocates written as 1/0', w.mod.rel, ca_[0].line if ca_ else 1,
-             'caller-allocates rows: %s' % [str(x) for x in ca_])
+    okca = False
+    if len(ca_) == 1:
+        okca = ca_[0][1] == "'1' if %s.caller_allocates else '0'" % pm
+    elif len(ca_) == 2:
+        d = dict((t, c) for c, t, n in ca_)
+        CA = A_('%s.caller_allocates' % pm)
+        okca = set(d) == {"'1'", "'0'"} and gsa.equiv(d["'1'"], gsa.conj(gsa.disj(d["'1'"], d["'0'"]), CA)) and gsa.equiv(d["'0'"], gsa.conj(gsa.disj(d["'1'"], d["'0'"]), gsa.neg(CA)))
+    r4.check(okca, 'caller-allocates written as 1/0', wrel, WP.func.lineno, 'caller-allocates rows: %s' % [(t, gsa.show(c)) for c, t, n in ca_])
     for k, attr in (('closure', 'closure_name'), ('destroy', 'destroy_name')):
         x = rows.get(k, [])
-        ok = len(x) == 1 and x[0].value == "'%%d' %% (node.get_parameter_index(parameter.%s),)" % attr and x[0].guard_text() == 'parameter.%s is not None' % attr
-        r4.check(ok, 'parameter/@%s = index of %s in the same callable' % (k, attr), w.mod.rel, x[0].line if x else 1, '%s rows: %s' % (k, [str(y) for y in x]),
-                 detail=[str(y) for y in x])
-    wp = py.func('girwriter', 'GIRWriter._write_parameter')
-    idxs = [c for c in P.calls_in(wp) if isinstance(c.func, ast.Attribute) and c.func.attr == 'get_parameter_index']
-    r4.check(len(idxs) == 2 and all(P.src(c.func.value) == wp.args.args[1].arg for c in idxs), 'indices computed on the parent being written', w.mod.rel, wp.lineno, 'get_parameter_index receivers changed')
+        ok = len(x) == 1 and re.match(r"^('%%d' %% \(|str\()%s\.get_parameter_index\(%s\.%s\)(,\)|\))$" % (re.escape(par), re.escape(pm), attr), x[0][1]) and \
+            gsa.equiv(x[0][0], gsa.neg(A_('%s.%s is None' % (pm, attr))))
+        r4.check(bool(ok), 'parameter/@%s = index of %s in the same callable' % (k, attr), wrel, WP.func.lineno, '%s rows: %s' % (k, [(t, gsa.show(c)) for c, t, n in x]),
+                 detail=[(t, gsa.show(c)) for c, t, n in x])
     gpi = py.func('ast', 'Callable.get_parameter_index')
     r4.check(any(isinstance(n, ast.Raise) for n in ast.walk(gpi)), 'get_parameter_index raises on unknown names', 'giscanner/ast.py', gpi.lineno, 'get_parameter_index no longer raises for a dangling name')
     # arrays
-    arr = [e for e in w.by_tag()['array'] if any(r_.key == 'length' for r_ in e.rows)][0]
+    WT = gsa.summarise(ctx, 'girwriter', 'GIRWriter._write_type', opaque=WOPQ + ('_type_to_name',))
+    tp = WT.P(1)
+    if 'parent' not in WT.params:
+        raise AnalysisError('_write_type lost its parent parameter')
     arows = {}
-    for r_ in arr.rows:
-        arows.setdefault(r_.key, []).append(r_)
-    abase = arows['fixed-size'][0].value.split('(')[-1].split('.size')[0] if 'fixed-size' in arows else None
-    r4.check(abase is not None and arows['fixed-size'][0].guard_text() == '%s.size is not None' % abase, 'array/@fixed-size <- size', w.mod.rel, arows['fixed-size'][0].line if 'fixed-size' in arows else 1,
-             'fixed-size rows: %s' % [str(x) for x in arows.get('fixed-size', [])])
-    r4.check('length' in arows and arows['length'][0].guard_text() == '%s.length_param_name is not None' % abase, 'array/@length <- length_param_name', w.mod.rel,
-             arows['length'][0].line if 'length' in arows else 1, 'length rows: %s' % [str(x) for x in arows.get('length', [])])
-    wt = py.func('girwriter', 'GIRWriter._write_type')
-    li = [(P.src(c.func.value), c.func.attr, [g.text() for g in P.guards(c) if g.kind == 'if'][-1:]) for c in P.calls_in(wt) if isinstance(c.func, ast.Attribute) and c.func.attr in ('get_parameter_index', 'get_field_index')]
-    r4.check(sorted(li) == sorted([('parent', 'get_parameter_index', ['isinstance(parent, ast.Callable)']), ('parent', 'get_field_index', ['isinstance(parent, ast.Compound)'])]),
-             'length index: parameter index in callables, field index in compounds', w.mod.rel, wt.lineno, 'length lookups: %s' % li, detail=li)
-    z1 = [x.guard_text() for x in arows.get('zero-terminated', []) if x.value == "'1'"]
-    z0 = [x.guard_text() for x in arows.get('zero-terminated', []) if x.value == "'0'"]
-    r4.check(len(z1) == 1 and '.size is not None or' in z1[0] and '.length_param_name is not None' in z1[0] and len(z0) == 1 and z0[0].startswith('not '), 'zero-terminated explicit whenever the reader default differs',
-             w.mod.rel, arows['zero-terminated'][0].line if 'zero-terminated' in arows else 1,
+    for cond, key, val, n in gsa.list_items(WT, None if len([v for v in WT.final_env.values() if isinstance(v, gsa.ListVal)]) == 1 else 'attrs'):
+        arows.setdefault(key, []).append((cond, gsa._unparse(val)))
+    SIZE_NONE, LEN_NONE, ZT = '%s.size is None' % tp, '%s.length_param_name is None' % tp, '%s.zeroterminated' % tp
+    fs = arows.get('fixed-size', [])
+    r4.check(len(fs) >= 1 and all('%s.size' % tp in t and not gsa.can_hold(c, {SIZE_NONE: True}) and gsa.can_hold(c, {SIZE_NONE: False}) for c, t in fs), 'array/@fixed-size <- size', wrel, WT.func.lineno,
+             'fixed-size rows: %s' % [(t, gsa.show(c)[-120:]) for c, t in fs])
+    ln = arows.get('length', [])
+    real = [(c, t) for c, t in ln if 'get_' in t]
+    r4.check(len(real) >= 1 and all(not gsa.can_hold(c, {LEN_NONE: True}) for c, t in ln), 'array/@length <- length_param_name', wrel, WT.func.lineno, 'length rows: %s' % [(t, gsa.show(c)[-120:]) for c, t in ln])
+    li = []
+    for c, t in real:
+        mm = re.search(r'(\w+)\.(get_parameter_index|get_field_index)\(%s\.length_param_name\)' % re.escape(tp), t)
+        if mm:
+            kind = 'ast.Callable' if mm.group(2) == 'get_parameter_index' else 'ast.Compound'
+            isk = 'isinstance(%s, %s)' % (mm.group(1), kind)
+            li.append((mm.group(1), mm.group(2), (not gsa.can_hold(c, {isk: False})) and gsa.can_hold(c, {isk: True, LEN_NONE: False})))
+    r4.check(sorted(li) == sorted([('parent', 'get_parameter_index', True), ('parent', 'get_field_index', True)]),
+             'length index: parameter index in callables, field index in compounds', wrel, WT.func.lineno, 'length lookups: %s' % li, detail=li)
+    z1 = gsa.disj(*[c for c, t in arows.get('zero-terminated', []) if t == "'1'"])
+    z0 = gsa.disj(*[c for c, t in arows.get('zero-terminated', []) if t == "'0'"])
+    isarr = dict((a_, True) for a_ in gsa.atoms(gsa.disj(z1, z0)) if re.match(r'^isinstance\(%s, ast\.Array\)$' % re.escape(tp), a_))
+    isarr.update(dict((a_, False) for a_ in gsa.atoms(gsa.disj(z1, z0)) if re.match(r'^isinstance\(%s, ast\.Varargs\)$' % re.escape(tp), a_)))
+
+    def zt(f, **kw):
+        v = dict(isarr)
+        v.update({ZT: kw['zt'], SIZE_NONE: kw['size_none'], LEN_NONE: kw['len_none']})
+        return gsa.can_hold(f, v)
+    okz = z1 is not False and z0 is not False and zt(z1, zt=True, size_none=False, len_none=True) and zt(z1, zt=True, size_none=True, len_none=False) and \
+        not zt(z1, zt=True, size_none=True, len_none=True) and not zt(z1, zt=False, size_none=False, len_none=False) and \
+        zt(z0, zt=False, size_none=True, len_none=True) and not zt(z0, zt=True, size_none=True, len_none=True)
+    r4.check(okz, 'zero-terminated explicit whenever the reader default differs',
+             wrel, WT.func.lineno,
              'zero-terminated="1" is written when %s: an array that is zero-terminated AND has a fixed size or a length needs the explicit attribute, because readers '
-             'default to "not zero-terminated" as soon as fixed-size/length is present' % z1, detail={'1': z1, '0': z0})
-    rv = [e for e in w.by_tag()['return-value']][0]
-    rr = dict((x.key, x) for x in rv.rows)
-    rb = rr['transfer-ownership'].value.rsplit('.', 1)[0] if 'transfer-ownership' in rr else '?'
-    r4.check(set(rr) == {'transfer-ownership', 'skip', 'nullable'} and rr['nullable'].guard_text() == '%s.nullable and (not %s.not_nullable)' % (rb, rb), 'return-value attributes', w.mod.rel, rv.line,
-             'return-value rows: %s' % [str(x) for x in rv.rows], detail=[str(x) for x in rv.rows])
+             'default to "not zero-terminated" as soon as fixed-size/length is present' % gsa.show(z1)[:300], detail={'1': gsa.show(z1)[:200], '0': gsa.show(z0)[:200]})
+    WR = gsa.summarise(ctx, 'girwriter', 'GIRWriter._write_return_type', opaque=WOPQ)
+    rp = WR.P(1)
+    rr = {}
+    for cond, key, val, n in gsa.list_items(WR):
+        rr.setdefault(key, []).append((cond, gsa._unparse(val)))
+    nullc = gsa.disj(*[c for c, t in rr.get('nullable', [])])
+    base_ok = gsa.assign(nullc, {rp: True})
+    r4.check(set(rr) == {'transfer-ownership', 'skip', 'nullable'} and gsa.equiv(base_ok, gsa.conj(A_('%s.nullable' % rp), gsa.neg(A_('%s.not_nullable' % rp)))) and
+             any(t == '%s.transfer' % rp for c, t in rr.get('transfer-ownership', [])), 'return-value attributes', wrel, WR.func.lineno,
+             'return-value rows: %s' % dict((k, [(t, gsa.show(c)) for c, t in v]) for k, v in rr.items()), detail=sorted(rr))
